@@ -10,6 +10,7 @@ from .facts import (BIND_ALIASES, COUNTMIN, SKETCH_CLASSES, array_alloc, const_i
 from .flow import Arr, ArrSlice, Bytes, Num, Opaque, Tup, cond_atoms, show_cond
 from .lin import Lin, show_lin
 from .model import resolve_temps, AnalysisError, Ty, dotted, self_attr, unparse, walk_no_nested
+from .model import comes_before, is_inside
 from .report import FAIL, OK, UNDECIDED
 
 COUNTER_ATTRS = {"cms", "lhh_count"}      # integer counter tables (wrap would corrupt a count)
@@ -708,7 +709,7 @@ def rule_qmin(ctx, kernels=None, rule="qmin", strict_seed=True):
         if not lends:
             continue
         # no answer is given before every row was visited
-        early = [r for r in rets if loops and not (r.line > loops[0].end_lineno and not r.loops)]
+        early = [r for r in rets if loops and not (comes_before(k.node, loops[0], r.node) and not r.loops)]
         ctx.ob(rule, k, early[0].node if early else k.node, "%s: returns only after the row loop" % k.name,
                "the estimate is returned only after all rows were examined", not early,
                "" if not early else "`%s` answers before/inside the loop over the rows" % src(k, early[0].node, 50))
@@ -1189,7 +1190,7 @@ def rule_logstep(ctx):
             tg = n.targets if isinstance(n, ast.Assign) else [n.target]
             for t in tg:
                 for e_ in (t.elts if isinstance(t, (ast.Tuple, ast.List)) else [t]):
-                    if isinstance(e_, ast.Name) and e_.id == cname and not (loopn is not None and loopn.lineno <= n.lineno <= loopn.end_lineno):
+                    if isinstance(e_, ast.Name) and e_.id == cname and not (loopn is not None and is_inside(k.node, n, loopn)):
                         outside.append(n)
     ctx.ob("logstep", k, outside[0] if outside else k.node, "assignments to `%s` outside the step loop" % cname,
            "the counter changes only through the per-unit steps of the loop", True if not outside else None,
@@ -1535,7 +1536,7 @@ def rule_findbase_post(ctx):
                     if is_resid and en == "ValueError":
                         guards.append(n)
     last_ret = rets[-1] if rets else None
-    okk = bool(guards) and last_ret is not None and all(g.end_lineno < last_ret.lineno for g in guards) and len(rets) == 1
+    okk = bool(guards) and last_ret is not None and all(comes_before(fb.node, g, last_ret) for g in guards) and len(rets) == 1
     ctx.ob("findbase-post", fb, guards[0] if guards else (last_ret or fb.node), "%s: residual check before `return base`" % fb.name,
            "a base is returned only if |f(base)| is within tolerance of the defining equation, otherwise ValueError: an accepted log "
            "configuration decodes its ceiling to max_count", okk,
